@@ -59,9 +59,23 @@ func readAll(o *out, id string, stream []byte, withMeta bool) {
 
 // readAllExpect runs all reader views over one stream and prints the observations.
 func readAllExpect(o *out, id string, stream []byte, withMeta bool, expect [][]elem) {
+	readAllWith(o, id, stream, withMeta, expect, false)
+}
+
+// readAllEncoded is readAllExpect for a stream that one of the library's ENCODERS produced: its zlib streams
+// must be complete (normalizeEncoded)
+func readAllEncoded(o *out, id string, stream []byte, withMeta bool, expect [][]elem) {
+	readAllWith(o, id, stream, withMeta, expect, true)
+}
+
+func readAllWith(o *out, id string, stream []byte, withMeta bool, expect [][]elem, encoded bool) {
 	ctx, cancel := context.WithTimeout(context.Background(), 20*time.Second)
 	defer cancel()
-	o.printf("S %s %s\n", id, hex.EncodeToString(normalizeStream(stream)))
+	if encoded {
+		o.printf("S %s %s\n", id, hex.EncodeToString(normalizeEncoded(stream)))
+	} else {
+		o.printf("S %s %s\n", id, hex.EncodeToString(normalizeStream(stream)))
+	}
 	if expect != nil {
 		hs := make([]string, len(expect))
 		for i, d := range expect {
